@@ -14,7 +14,7 @@ Check C11_utf8_prefix :
     encode p ++ x = encode s -> firstn (length p) s = p /\ encode (skipn (length p) s) = x.
 Check C11_utf8_injective :
   forall a b, forallb scalar a = true -> forallb scalar b = true -> encode a = encode b -> a = b.
-Check C11_utf8_selfsync_partial :
+Check C11_utf8_byte_classes :
   forall c, (c <= 1114111)%N ->
     exists h t, enc1 c = h :: t /\ is_cont h = false /\ forallb is_cont t = true.
 Check C11_findSubstr_refines :
@@ -31,7 +31,7 @@ Check C11_startsWith_refines :
     starts_impl a b = starts_spec a b.
 Check C11_substr_spec :
   forall s from len, substr_impl s from len = substr_spec s from len.
-Check C11_split_spec_partial :
+Check C11_split_spec :
   forall s sep lim, sep <> [] ->
     exists ps, split_spec s sep lim = Some ps /\ join sep ps = s /\ ps <> [] /\
                (forall n, lim = Some n -> length ps <= S n).
@@ -39,13 +39,11 @@ Check C11_strReplace_identity :
   forall s from, from <> [] -> replace_spec s from from = Some s.
 Check C11_parse_nat_exact :
   forall base s v, (base = 8 \/ base = 10 \/ base = 16)%N ->
-    known_hex_punct base s = false -> nat_spec base s = Some v -> (v < 2 ^ 53)%N ->
+    nat_spec base s = Some v -> (v < 2 ^ 53)%N ->
     nat_impl base s = PFin v.
 Check C11_parse_nat_rejects :
   forall base s, (base = 8 \/ base = 10 \/ base = 16)%N ->
-    known_hex_punct base s = false -> nat_spec base s = None -> nat_impl base s = PBad.
-Check C11_parse_hex_refuted :
-  exists s, known_hex_punct 16 s = true /\ nat_spec 16 s = None /\ nat_impl 16 s = PFin 10.
+    nat_spec base s = None -> nat_impl base s = PBad.
 Check C11_digit_alphabet :
   forall base c, (base = 8 \/ base = 10 \/ base = 16)%N ->
     (exists d, digit_spec base c = Some d) <->
@@ -72,6 +70,26 @@ Check C11_base64_string_roundtrip :
   forall s, forallb scalar s = true ->
     spec_call (CB64Dec (b64_encode (encode s))) = RStr s.
 
+Check C11_utf8_selfsync :
+  forall s p x y,
+    forallb scalar s = true -> forallb scalar p = true -> p <> [] ->
+    encode s = x ++ encode p ++ y ->
+    exists a b, s = a ++ p ++ b /\ x = encode a /\ y = encode b.
+Check C11_split_refines :
+  forall s sep lim, sep <> [] ->
+    forallb scalar s = true -> forallb scalar sep = true ->
+    bsplit s sep lim = map encode (gsplit sep lim s).
+Check C11_endsWith_refines :
+  forall a b, forallb scalar a = true -> forallb scalar b = true ->
+    ends_impl a b = ends_spec a b.
+Check C11_rstrip_refines :
+  forall chars s, rstrip_impl s chars = rstrip_spec s chars.
+Check C11_strip_spec :
+  forall chars s, strip_impl s chars = strip_spec s chars.
+Check eq_refl : bsplit [97; 233; 44; 128512]%N [44]%N None = [[97; 195; 169]; [240; 159; 152; 128]]%N.
+Check eq_refl : ends_impl [97; 233]%N [233]%N = true.
+Check eq_refl : ends_spec [97; 233]%N [169]%N = false.
+Check eq_refl : strip_impl [97; 98; 97]%N [97]%N = [98]%N.
 (** non-vacuity of the hypotheses and the definitions the statements rest on, pinned by evaluation *)
 Check eq_refl : forallb scalar [97; 233; 19990; 128512; 769; 65533]%N = true.
 Check eq_refl : scalar 55296%N = false.
@@ -101,8 +119,9 @@ Check eq_refl : nat_spec 10 []%N = None.
 Check eq_refl : int_spec [45; 49; 50]%N = Some (-12)%Z.
 Check eq_refl : int_spec [45]%N = None.
 Check eq_refl : nat_impl 10 [57; 48; 48; 55; 49; 57; 57; 50; 53; 52; 55; 52; 48; 57; 57; 51]%N = PFin 9007199254740992%N.
-Check eq_refl : known_hex_punct 16 [49; 58]%N = true.
-Check eq_refl : known_hex_punct 10 [49; 58]%N = false.
+Check eq_refl : nat_impl 16 [58]%N = PBad.
+Check eq_refl : nat_impl 16 [49; 63]%N = PBad.
+Check eq_refl : nat_impl 16 [102; 70; 57]%N = PFin 4089%N.
 Check eq_refl : b64_encode [77; 97; 110]%N = [84; 87; 70; 117]%N.
 Check eq_refl : b64_encode [77; 97]%N = [84; 87; 69; 61]%N.
 Check eq_refl : b64_encode [77]%N = [84; 81; 61; 61]%N.
